@@ -121,6 +121,10 @@ CORPUS = [
                                                                                               "deserialize": "no de", "mut_any": "no mut"})]))],
                                                     flat=True))),
                             F("z", L("u8"))])),
+    # a Cell around INTERNAL nodes (the usual use is Cell<Leaf<T>>): the metadata walk must descend into it like the
+    # by-key functions do
+    ("cell_inner", named(("c", Gate("cell", Array(2, L("u8")))), ("d", Gate("cell", Tuple([L("u8"), Array(2, L("bool"))]))),
+                         ("z", L("u8")))),
     # accessors / validator / denials ON the single field of a flattened struct (the flattened level is transparent for
     # keys, not for the field's attributes)
     ("flat_attr", Struct([F("w", Struct([F("only", L("u8"), get=True, get_mut=True, validate=True)], flat=True)),
